@@ -132,7 +132,7 @@ def run(ctx):
             continue
         t0 = [t for t in cb.calls() if t.callee.short.endswith("get_subgraph")][0] if all(t.callee for t in cb.calls()) else list(cb.calls())[0]
         chains.append(("community contribution in modularity", flows.slice(cb.path, [L(0)], up=False, down="clos", data_only=True), t0))
-    MERGING = ("unique", "unique_by", "dedup", "dedup_by", "dedup_by_key", "dedup_with_count", "dedup_by_with_count", "take", "skip", "step_by", "take_while", "skip_while", "nth", "last", "next", "first", "truncate", "min_by", "max_by", "min_by_key", "max_by_key", "tuple_windows", "chunks", "retain")
+    MERGING = ("unique", "unique_by", "dedup", "dedup_by", "dedup_by_key", "dedup_with_count", "dedup_by_with_count", "take", "skip", "step_by", "take_while", "skip_while", "nth", "last", "first", "truncate", "min_by", "max_by", "min_by_key", "max_by_key", "tuple_windows", "chunks", "retain")
     for (what, sl, t) in chains:
         calls = []
         for (bp, n) in sl:
